@@ -165,6 +165,8 @@ async def scenario(env: Any, case: Dict[str, Any]) -> Dict[str, Any]:
                 info["late_sid"] = client.request(
                     [(b":method", b"GET"), (b":scheme", b"http"), (b":authority", b"x"),
                      (b":path", b"/quick")], end_stream=True)
+                # (the request left while the connection was still open)
+                info["late_sent_at_open"] = not info["c"].server_gone
             except Exception:
                 info["late_sid"] = None
     await env.settle(case["graceful"] + case["shutdown_timeout"] + 50.0)
@@ -321,6 +323,15 @@ def judge(case: Dict[str, Any], res: Any) -> None:
                     dict(ls.header_blocks[0]).get(b":status") == b"200":
                 raise Violation("new_stream_served_after_trigger", f"stream {info['late_sid']}",
                                 **ptag)
+            # "new HTTP/2 streams are refused": the client learns that the stream was not taken
+            # on - by its reset, or by a GOAWAY whose last-stream-id lies below it
+            if info.get("late_sid") and info.get("late_sent_at_open"):
+                told = (ls is not None and ls.rst is not None) or (
+                    acct.goaway is not None and acct.goaway[0] < info["late_sid"])
+                if not told:
+                    raise Violation("new_stream_not_refused", f"stream {info['late_sid']} opened "
+                                    f"after the trigger: no RST_STREAM, GOAWAY {acct.goaway}",
+                                    **ptag)
             if c.eof_at is None or c.eof_at > t0 + g + eps:
                 raise Violation("not_closed_by_deadline", f"closed at {c.eof_at}", **ptag)
             if phase in ("h2_short", "h2_two", "h2c_short") and acct.goaway is None:
